@@ -127,4 +127,228 @@ Proof.
   - rewrite Er. eapply Hk; eauto.
 Qed.
 
+(* ------------------------------------------------------------------ the small steps of the body *)
+Definition body_rel (s s' : vsock) : Prop :=
+  v_restart s' = v_restart s /\ v_now s' = v_now s /\ v_env_now s' = v_env_now s /\
+  ss_mono (v_ss s) (v_ss s').
+
+Lemma body_rel_refl s : body_rel s s.
+Proof. unfold body_rel, ss_mono. repeat (split; [reflexivity|]). lia. Qed.
+
+Lemma body_rel_trans a b c : body_rel a b -> body_rel b c -> body_rel a c.
+Proof.
+  unfold body_rel. intros (A1&A2&A3&A4) (B1&B2&B3&B4).
+  repeat (split; [congruence|]). eapply ss_mono_trans; eauto.
+Qed.
+
+Lemma ctl_body_rel s s' : ctl_rel s s' -> body_rel s s'.
+Proof.
+  intros (((C1&C2&C3&C4&C5&C6&C7&C8&C9&C10&C11&C12&C13&C14) & Hf & Hr) & Hq & He).
+  unfold body_rel, ss_mono. rewrite C4. repeat (split; [assumption|]). lia.
+Qed.
+
+Lemma loop_body_rel s s' : loop_rel s s' -> body_rel s s'.
+Proof. unfold loop_rel, body_rel. tauto. Qed.
+
+Lemma tx_body_rel s s' : tx_rel s s' -> body_rel s s'.
+Proof. unfold tx_rel, body_rel, ss_mono. intros (_ & A2 & A3 & A4 & A5). rewrite A3. repeat (split; [assumption|]). lia. Qed.
+
+Lemma ctl_set_t_ack_delay (s : vsock) x : ctl_rel s (set_t_ack_delay s x).
+Proof. unfold ctl_rel, send_frame, same_core, emsg_free. vsimpl. repeat split; tauto. Qed.
+
+Lemma send_ack_ctl (s : vsock) : spx strict (send_ack s) (fun s' _ => ctl_rel s s') (ctl_rel s).
+Proof. eapply spx_weaken; [apply (send_ack_x strict)|intros ? ? [H _]; exact H|intros ? [H _]; exact H]. Qed.
+
+Lemma maybe_send_ack_x (s : vsock) : spx strict (maybe_send_ack s) (fun s' _ => ctl_rel s s') (ctl_rel s).
+Proof.
+  unfold maybe_send_ack. pose proof (send_ack_ctl s) as Ha.
+  destruct (immediate_ack_to_transmit s); [exact Ha|].
+  destruct (should_send_window_update s); [exact Ha|].
+  destruct (timer_expired _ _).
+  - destruct (ack_to_transmit s); [exact Ha|cbn [spx]; apply ctl_set_t_ack_delay].
+  - destruct (0 <? _); cbn [spx]; [apply ctl_set_t_ack_delay|apply ctl_refl].
+Qed.
+
+Lemma x_ctl p q (s s' : vsock) : vs_x ti tm p q s -> ctl_rel s s' -> vs_x ti tm p q s'.
+Proof. intros Hx [[Hc _] _]. eapply x_same_core; eauto. Qed.
+
+Lemma ef_ctl (s s' : vsock) : ef strict s -> ctl_rel s s' -> ef strict s'.
+Proof. intros He [[_ [Hf _]] _]. unfold ef in *. auto. Qed.
+
+Lemma ctl_state (s s' : vsock) : ctl_rel s s' -> v_state s' = v_state s.
+Proof. intros [[(_&_&_&_&_&_&_&E&_) _] _]. exact E. Qed.
+
+Definition mb (q : Z -> Prop) (sB s : vsock) : Prop :=
+  vs_x ti tm 0 q s /\ ef strict s /\ body_rel sB s.
+
+Lemma mb_ctl q sB s s' : mb q sB s -> ctl_rel s s' -> mb q sB s'.
+Proof.
+  intros (H1 & H2 & H3) Hc. split; [eapply x_ctl; eauto|]. split; [eapply ef_ctl; eauto|].
+  eapply body_rel_trans; [exact H3|apply ctl_body_rel; exact Hc].
+Qed.
+
+Lemma maybe_send_syn_ack_x q (s : vsock) :
+  vs_x ti tm 0 q s -> ef strict s ->
+  spx strict (maybe_send_syn_ack s)
+      (fun s' _ => mb q s s' /\ (v_transport_pending s' = false -> v_state s' <> SynReceived))
+      (vs_xe ti tm q).
+Proof.
+  intros Hx Hef.
+  assert (H0 : mb q s s) by (split; [exact Hx|split; [exact Hef|apply body_rel_refl]]).
+  assert (Hgo : forall c, v_state s <> Closed ->
+    spx strict
+      (if c =? o_max_retx (v_opts s) then SErr s ErrMaxSynAckRetransmissionsReached
+       else sbind (send_ack s) (fun s1 sent =>
+         if sent then
+           SOk (set_t_syn_ack_resend (set_state s1 (SynAckSent (c + 1)))
+                  (timer_arm (v_t_syn_ack_resend s1) (v_now s1) SYNACK_RESEND_INTERNAL true)) tt
+         else SOk s1 tt))
+      (fun s' _ => mb q s s' /\ (v_transport_pending s' = false -> v_state s' <> SynReceived))
+      (vs_xe ti tm q)).
+  { intros c Hnc. destruct (_ =? _); [cbn [spx allowed]; split; [exact I|eapply x_xe; exact Hx]|].
+    pose proof (send_ack_ctl s) as Ha. pose proof (send_control_packet_sent strict s
+      (hdr_with (outgoing_header s) ST_STATE (ch_seq (outgoing_header s)) (sack_of_rx (v_rx s)))) as Hb.
+    unfold send_ack in *.
+    destruct (send_control_packet s _) as [s1 sent|s1 e|]; cbn [sbind spx sp] in *; [| |exact Ha].
+    - pose proof (mb_ctl _ _ _ _ H0 Ha) as (A1 & A2 & A3).
+      destruct sent; cbn [spx].
+      + split; [|vsimpl; discriminate].
+        split; [eapply x_state; [exact A1|..]; vsimpl; try reflexivity; intros _; rewrite (ctl_state _ _ Ha); exact Hnc|].
+        split; [exact A2|exact A3].
+      + split; [split; [exact A1|split; [exact A2|exact A3]]|].
+        intro Hp. rewrite (Hb eq_refl) in Hp. discriminate.
+    - destruct Ha as [Hal Hc]. split; [exact Hal|]. eapply x_xe, x_ctl; eauto. }
+  unfold maybe_send_syn_ack. destruct (v_state s) eqn:Est.
+  - apply Hgo. discriminate.
+  - destruct (timer_expired _ _); [apply Hgo; discriminate|].
+    cbn [spx]. split; [exact H0|]. intros _. rewrite Est. discriminate.
+  - cbn [spx]. split; [exact H0|]. vsimpl. intros _. rewrite Est. discriminate.
+  - cbn [spx]. split; [exact H0|]. vsimpl. intros _. rewrite Est. discriminate.
+  - cbn [spx]. split; [exact H0|]. vsimpl. intros _. rewrite Est. discriminate.
+  - cbn [spx]. split; [exact H0|]. vsimpl. intros _. rewrite Est. discriminate.
+  - cbn [spx]. split; [exact H0|]. vsimpl. intros _. rewrite Est. discriminate.
+Qed.
+
+(* ------------------------------------------------------------------ one iteration of the restart loop *)
+Definition dss (ss : segsizes) : Z := max_ss ss - min_ss ss.
+
+(* what a restart leaves behind, relative to the state s0 the iteration started from *)
+Definition restart_R (q : Z -> Prop) (s0 s' : vsock) : Prop :=
+  strict = false /\ vs_x ti tm 0 qF s' /\ v_env_now s' = v_env_now s0 /\
+  exists ssm zp z, ss_ok ssm /\ ss_mono (v_ss s0) ssm /\ (q zp \/ PB ssm zp) /\ 0 <= z /\
+    ((q z \/ PB ssm z) \/ z <= min_ss ssm) /\ v_ss s' = disarm_cooldown (on_probe_failed ssm z).
+
+Lemma poll_body_x q (s0 : vsock) :
+  vs_x ti tm 0 q s0 -> 0 <= v_env_now s0 <= SAMPLE_BOUND -> ef strict s0 ->
+  br_ok (restart_R q s0) (poll_body cci s0).
+Proof.
+  intros Hx0 Hclk Hef0. unfold poll_body.
+  set (sB := set_restart (set_now (set_transport_pending s0 false) (v_env_now s0)) false).
+  assert (HxB : vs_x ti tm 0 q sB).
+  { split; [exact (proj1 Hx0)|]. unfold sx, sB. vsimpl. split; [exact (proj1 (proj2 Hx0))|exact Hclk]. }
+  assert (HefB : ef strict sB) by exact Hef0.
+  assert (HrB : v_restart sB = false) by reflexivity.
+  assert (HeB : v_env_now sB = v_env_now s0) by reflexivity.
+  assert (HsB : v_ss sB = v_ss s0) by reflexivity.
+  clearbody sB.
+  assert (Hnr : forall s : vsock, body_rel sB s -> v_restart s = true -> restart_R q s0 s).
+  { intros s (E1 & _) Hr. rewrite E1, HrB in Hr. discriminate. }
+  (* 1. the SYN-ACK *)
+  eapply pend_ok with (q := q); [apply maybe_send_syn_ack_x; assumption| | |].
+  { intros s a [(_ & _ & Hb) _]. apply Hnr. exact Hb. }
+  { intros s a [(H & _) _]. eapply x_qT; exact H. }
+  intros s1 u1 [Hm1 Hst1] _ Hp1. specialize (Hst1 Hp1).
+  (* 2. the immediate ACK *)
+  eapply pend_ok with (q := q) (Q := fun s (_ : bool) => mb q sB s /\ v_state s <> SynReceived).
+  { destruct (immediate_ack_to_transmit s1); [|cbn [spx]; auto].
+    eapply spx_weaken; [apply send_ack_ctl| |].
+    - intros s b Hc. split; [eapply mb_ctl; eauto|]. rewrite (ctl_state _ _ Hc). exact Hst1.
+    - intros s Hc. eapply x_xe, x_ctl; [exact (proj1 Hm1)|exact Hc]. }
+  { intros s a [(_ & _ & Hb) _]. apply Hnr. exact Hb. }
+  { intros s a [(H & _) _]. eapply x_qT; exact H. }
+  intros s2 u2 [(Hx2 & Hef2 & Hb2) Hst2] _ _.
+  (* 3. the incoming messages *)
+  eapply pend_ok with (q := q) (Q := fun s (_ : unit) => mb q sB s).
+  { eapply spx_weaken; [apply (process_all_x cci strict Hcc ti tm q); assumption| |auto].
+    intros s u (A1 & A2 & A3). split; [exact A1|]. split; [exact A2|].
+    eapply body_rel_trans; [exact Hb2|apply loop_body_rel; exact A3]. }
+  { intros s a (_ & _ & Hb). apply Hnr. exact Hb. }
+  { intros s a (H & _). eapply x_qT; exact H. }
+  intros s3 u3 (Hx3 & Hef3 & Hb3) _ _.
+  (* 4. flush *)
+  destruct (rx_flush (v_rx s3)) as [[rx1 fr] w] eqn:Efl.
+  destruct (inv_parts _ _ _ _ (proj1 Hx3)) as (I1 & I2 & I3 & I4 & I5 & I6 & I7 & I8).
+  destruct (rx_flush_spec _ _ _ _ I1 Efl) as (Hrx1 & (fb & -> & _) & _).
+  set (s4 := add_wakes (set_rx s3 rx1) (rx_wakes w)).
+  assert (Hm4 : mb q sB s4).
+  { unfold s4, add_wakes. split; [eapply x_update; [exact Hx3|..]; vsimpl; auto; try lia|].
+    split; [exact Hef3|exact Hb3]. }
+  clearbody s4. destruct Hm4 as (Hx4 & Hef4 & Hb4).
+  destruct (timer_expired (v_t_inactivity s4) (v_now s4)).
+  { eapply die_ok; [cbn [allowed]; exact I|eapply x_xe; exact Hx4]. }
+  (* 5. segmentation *)
+  eapply bail_ok with (q := q) (Q := fun s (_ : unit) => split_post strict ti tm q s4 s).
+  { eapply spx_weaken; [apply (split_x cci strict ti tm q); assumption|auto|intros s []]. }
+  { intros s a (_ & _ & (_&_&_&_&_&_&_&_&Er) & _) Hr. exfalso.
+    destruct Hb4 as (E1 & _). rewrite Er, E1, HrB in Hr. discriminate. }
+  intros s5 u5 (Hx5 & Hef5 & Hsr5 & Hmono5 & Hnow5 & Henv5) Hr5.
+  assert (Hb5 : body_rel sB s5).
+  { eapply body_rel_trans; [exact Hb4|]. unfold body_rel. destruct Hsr5 as (_&_&_&_&_&_&_&_&Er). auto. }
+  (* 6. send_tx_queue *)
+  set (q5 := fun z => q z \/ PB (v_ss s5) z) in *.
+  eapply pend_ok with (q := q5) (Q := fun s (_ : unit) => stq_post strict ti tm 0 q5 s5 s).
+  { apply (send_tx_queue_x cci strict ti tm 0 q5); assumption. }
+  { intros s a [(_ & _ & Ht)|(A1 & A2 & A3 & A4 & A5)] Hr.
+    - exfalso. destruct Ht as (_ & E2 & _). rewrite E2, Hr5 in Hr. discriminate.
+    - destruct A5 as (_ & Hns & zp & z & Z1 & Z0 & Z2 & Z3 & Z4).
+      unfold restart_R. split; [exact Hns|]. split; [exact Z4|].
+      split; [rewrite A4; destruct Hb5 as (_ & _ & E & _); congruence|].
+      exists (v_ss s5), zp, z.
+      destruct (inv_parts _ _ _ _ (proj1 Hx5)) as (_ & _ & _ & _ & _ & K6 & _).
+      split; [exact K6|]. split; [destruct Hb5 as (_ & _ & _ & E); rewrite <- HsB; exact E|].
+      split; [exact Z1|]. split; [exact Z0|]. split; [|exact Z3].
+      destruct Z2 as [Z2|Z2]; [left; exact Z2|right; exact Z2]. }
+  { intros s a [(H & _)|(_ & _ & _ & _ & (_ & _ & zp & z & _ & _ & _ & _ & H))]; eapply x_qT; exact H. }
+  intros s6 u6 Hpost Hr6 _.
+  assert (H6 : TQX strict ti tm 0 q5 s5 s6).
+  { destruct Hpost as [H|(_ & _ & _ & _ & (Hr & _))]; [exact H|]. rewrite Hr in Hr6. discriminate. }
+  destruct H6 as (Hx6 & Hef6 & Ht6).
+  assert (Hb6 : body_rel sB s6) by (eapply body_rel_trans; [exact Hb5|apply tx_body_rel; exact Ht6]).
+  (* 7. closing on our own initiative, FIN, ACK *)
+  set (s7 := if should_close_on_own_initiative s6 then transition_to_fin_wait_1 s6 else s6).
+  assert (Hm7 : mb q5 sB s7).
+  { unfold s7. destruct (should_close_on_own_initiative s6); [|split; [exact Hx6|split; [exact Hef6|exact Hb6]]].
+    destruct (transition_x ti tm 0 q5 s6 Hx6) as (T1 & T2 & T3 & T4 & T5).
+    split; [exact T1|]. split.
+    - unfold ef, emsg_free in *. rewrite T4. destruct T5 as (_ & _ & T5 & _). rewrite T5. exact Hef6.
+    - eapply body_rel_trans; [exact Hb6|apply loop_body_rel; exact T5]. }
+  clearbody s7.
+  eapply pend_ok with (q := q5) (Q := fun s (_ : bool) => mb q5 sB s).
+  { eapply spx_weaken; [apply (maybe_send_fin_x strict)| |].
+    - intros s b [Hc _]. eapply mb_ctl; eauto.
+    - intros s [Hc _]. eapply x_xe, x_ctl; [exact (proj1 Hm7)|exact Hc]. }
+  { intros s a (_ & _ & Hb). apply Hnr. exact Hb. }
+  { intros s a (H & _). eapply x_qT; exact H. }
+  intros s8 u8 Hm8 _ _.
+  eapply pend_ok with (q := q5) (Q := fun s (_ : bool) => mb q5 sB s).
+  { eapply spx_weaken; [apply maybe_send_ack_x| |].
+    - intros s b Hc. eapply mb_ctl; eauto.
+    - intros s Hc. eapply x_xe, x_ctl; [exact (proj1 Hm8)|exact Hc]. }
+  { intros s a (_ & _ & Hb). apply Hnr. exact Hb. }
+  { intros s a (H & _). eapply x_qT; exact H. }
+  intros s9 u9 (Hx9 & _ & _) _ _.
+  pose proof (x_qT _ _ _ Hx9) as Hx9T.
+  (* 8. the end of the iteration *)
+  destruct (state_is_closed _ _).
+  { cbn [br_ok ret_ok]. apply just_before_death_x. exact Hx9T. }
+  set (sa := if is_local_fin_or_later (v_state s9) then _ else s9).
+  assert (Ha : vs_x ti tm 0 qT sa) by (unfold sa; destruct (is_local_fin_or_later _); exact Hx9T).
+  clearbody sa.
+  destruct (next_timer_to_poll sa) as [sb t] eqn:En.
+  assert (Hbq : vs_x ti tm 0 qT sb).
+  { unfold next_timer_to_poll in En. destruct (v_transport_pending sa); injection En as <- _; exact Ha. }
+  cbn [br_ok ret_ok]. destruct t; [|exact Hbq].
+  unfold arm_in. destruct (_ <=? 0); unfold add_wakes; exact Hbq.
+Qed.
+
 End Poll.
